@@ -50,20 +50,20 @@ func c05Universe() (*resolve.LocalClient, resolve.VersionKey) {
 	return lc, root
 }
 
-type c05Snapshot struct {
+type c05USnapshot struct {
 	reqs map[resolve.VersionKey][]resolve.RequirementVersion
 	vers map[resolve.PackageKey][]resolve.Version
 }
 
-func c05Keys() ([]resolve.VersionKey, []resolve.PackageKey) {
+func c05UKeys() ([]resolve.VersionKey, []resolve.PackageKey) {
 	return []resolve.VersionKey{c05VK("r", "1.0"), c05VK("a", "1.0"), c05VK("a", "2.0a1"), c05VK("a", "2.0"), c05VK("b", "1.0"), c05VK("c", "1.0")},
 		[]resolve.PackageKey{c05PK("r"), c05PK("a"), c05PK("b"), c05PK("c")}
 }
 
-func c05Snap(lc *resolve.LocalClient) *c05Snapshot {
+func c05USnap(lc *resolve.LocalClient) *c05USnapshot {
 	ctx := context.Background()
-	s := &c05Snapshot{reqs: map[resolve.VersionKey][]resolve.RequirementVersion{}, vers: map[resolve.PackageKey][]resolve.Version{}}
-	vks, pks := c05Keys()
+	s := &c05USnapshot{reqs: map[resolve.VersionKey][]resolve.RequirementVersion{}, vers: map[resolve.PackageKey][]resolve.Version{}}
+	vks, pks := c05UKeys()
 	for _, vk := range vks {
 		rs, _ := lc.Requirements(ctx, vk)
 		s.reqs[vk] = append([]resolve.RequirementVersion(nil), rs...)
@@ -75,9 +75,9 @@ func c05Snap(lc *resolve.LocalClient) *c05Snapshot {
 	return s
 }
 
-func c05Same(lc *resolve.LocalClient, before *c05Snapshot, what string) {
+func c05USame(lc *resolve.LocalClient, before *c05USnapshot, what string) {
 	ctx := context.Background()
-	vks, pks := c05Keys()
+	vks, pks := c05UKeys()
 	for _, vk := range vks {
 		rs, _ := lc.Requirements(ctx, vk)
 		want := before.reqs[vk]
@@ -108,28 +108,28 @@ func c05Provider(lc *resolve.LocalClient, root resolve.VersionKey) *provider {
 
 func VerifC05GetDependencies() {
 	lc, root := c05Universe()
-	before := c05Snap(lc)
+	before := c05USnap(lc)
 	p := c05Provider(lc, root)
 	deps, err := p.getDependencies(context.Background(), root, nil)
 	vAssert(err == nil, "getDependencies succeeds")
 	vCover(len(deps) == 2, "one requirement filtered out by its marker")
-	c05Same(lc, before, "after getDependencies")
+	c05USame(lc, before, "after getDependencies")
 }
 
 func VerifC05MatchingPrereleases() {
 	lc, root := c05Universe()
-	before := c05Snap(lc)
+	before := c05USnap(lc)
 	p := c05Provider(lc, root)
 	req := resolve.VersionKey{PackageKey: c05PK("a"), VersionType: resolve.Requirement, Version: "<2.0"}
 	vks, err := p.matchingVersionsWithPrereleases(context.Background(), req)
 	vAssert(err == nil, "matchingVersionsWithPrereleases succeeds")
 	vCover(len(vks) >= 1, "some version matched")
-	c05Same(lc, before, "after matchingVersionsWithPrereleases")
+	c05USame(lc, before, "after matchingVersionsWithPrereleases")
 }
 
 func VerifC05Resolve() {
 	lc, root := c05Universe()
-	before := c05Snap(lc)
+	before := c05USnap(lc)
 	r := NewResolver(lc)
 	g, err := r.Resolve(context.Background(), root)
 	vAssert(err == nil, "Resolve succeeds")
@@ -138,7 +138,7 @@ func VerifC05Resolve() {
 	}
 	vCover(g.Error == "", "resolved without a graph error")
 	vObserveInt("nodes", len(g.Nodes))
-	c05Same(lc, before, "after Resolve")
+	c05USame(lc, before, "after Resolve")
 	// asking again gives the same graph
 	g2, err2 := r.Resolve(context.Background(), root)
 	vAssert(err2 == nil, "second Resolve succeeds")
@@ -152,5 +152,152 @@ func VerifC05Resolve() {
 			}
 		}
 	}
-	c05Same(lc, before, "after a second Resolve")
+	c05USame(lc, before, "after a second Resolve")
+}
+
+// ---- C05: resolution is a pure function of the universe and the root
+
+type c05Entry struct {
+	v    resolve.Version
+	reqs []resolve.RequirementVersion
+}
+
+func c05Client(es []c05Entry, reversed bool) *resolve.LocalClient {
+	lc := resolve.NewLocalClient()
+	for k := range es {
+		e := es[k]
+		if reversed {
+			e = es[len(es)-1-k]
+		}
+		lc.AddVersion(e.v, append([]resolve.RequirementVersion(nil), e.reqs...))
+	}
+	return lc
+}
+
+type c05Snap struct {
+	reqs [][]resolve.RequirementVersion
+	vers [][]resolve.Version
+}
+
+func c05Take(lc *resolve.LocalClient, es []c05Entry) *c05Snap {
+	ctx := context.Background()
+	s := &c05Snap{}
+	for _, e := range es {
+		rs, _ := lc.Requirements(ctx, e.v.VersionKey)
+		s.reqs = append(s.reqs, append([]resolve.RequirementVersion(nil), rs...))
+		vs, _ := lc.Versions(ctx, e.v.PackageKey)
+		s.vers = append(s.vers, append([]resolve.Version(nil), vs...))
+	}
+	return s
+}
+
+func c05SameSnap(a, b *c05Snap, what string) {
+	ok := true
+	for i := range a.reqs {
+		if len(a.reqs[i]) != len(b.reqs[i]) || len(a.vers[i]) != len(b.vers[i]) {
+			ok = false
+			continue
+		}
+		for j := range a.reqs[i] {
+			ok = vAnd(ok, vAnd(a.reqs[i][j].VersionKey == b.reqs[i][j].VersionKey, a.reqs[i][j].Type.Equal(b.reqs[i][j].Type)))
+		}
+		for j := range a.vers[i] {
+			ok = vAnd(ok, vAnd(a.vers[i][j].VersionKey == b.vers[i][j].VersionKey, a.vers[i][j].AttrSet.Equal(b.vers[i][j].AttrSet)))
+		}
+	}
+	vAssert(ok, what+": the client reports the same requirements and versions, in the same order, as before")
+}
+
+func c05Clone(g *resolve.Graph) *resolve.Graph {
+	if g == nil {
+		return nil
+	}
+	c := &resolve.Graph{Error: g.Error}
+	for _, n := range g.Nodes {
+		c.Nodes = append(c.Nodes, resolve.Node{Version: n.Version, Errors: append([]resolve.NodeError(nil), n.Errors...)})
+	}
+	c.Edges = append(c.Edges, g.Edges...)
+	return c
+}
+
+func c05SameGraph(g1, g2 *resolve.Graph, what string) {
+	if g1 == nil || g2 == nil {
+		vAssert(g1 == nil && g2 == nil, what+": both resolutions fail or both succeed")
+		return
+	}
+	vAssert((g1.Error == "") == (g2.Error == ""), what+": both report a graph error or neither")
+	vAssert(len(g1.Nodes) == len(g2.Nodes) && len(g1.Edges) == len(g2.Edges), what+": the same number of nodes and edges")
+	if len(g1.Nodes) != len(g2.Nodes) || len(g1.Edges) != len(g2.Edges) {
+		return
+	}
+	// Order-insensitive comparison (counting equal elements on both sides avoids sorting symbolic data):
+	// every node and every edge occurs equally often in both graphs. One obligation per comparison.
+	ok := len(g1.Nodes) == 0 || g1.Nodes[0].Version == g2.Nodes[0].Version
+	for _, n := range g1.Nodes {
+		c1, c2 := 0, 0
+		for _, m := range g1.Nodes {
+			c1 += vIteInt(vAnd(m.Version == n.Version, len(m.Errors) == len(n.Errors)), 1, 0)
+		}
+		for _, m := range g2.Nodes {
+			c2 += vIteInt(vAnd(m.Version == n.Version, len(m.Errors) == len(n.Errors)), 1, 0)
+		}
+		ok = vAnd(ok, c1 == c2)
+	}
+	same := func(ga *resolve.Graph, a resolve.Edge, gb *resolve.Graph, b resolve.Edge) bool {
+		return vAnd(vAnd(ga.Nodes[a.From].Version == gb.Nodes[b.From].Version, ga.Nodes[a.To].Version == gb.Nodes[b.To].Version),
+			vAnd(a.Requirement == b.Requirement, a.Type.Equal(b.Type)))
+	}
+	for _, e := range g1.Edges {
+		c1, c2 := 0, 0
+		for _, f := range g1.Edges {
+			c1 += vIteInt(same(g1, e, g1, f), 1, 0)
+		}
+		for _, f := range g2.Edges {
+			c2 += vIteInt(same(g1, e, g2, f), 1, 0)
+		}
+		ok = vAnd(ok, c1 == c2)
+	}
+	vAssert(ok, what+": the same graph (root, nodes and edges)")
+}
+
+// c05Purity runs the purity clauses with the given resolver constructor.
+func c05Purity(es []c05Entry, root resolve.VersionKey, mk func(resolve.Client) resolve.Resolver) {
+	lc := c05Client(es, false)
+	ctx := context.Background()
+	before := c05Take(lc, es)
+	r := mk(lc)
+	g1, err1 := r.Resolve(ctx, root)
+	if err1 != nil {
+		g1 = nil
+	}
+	vCover(g1 != nil && len(g1.Nodes) > 1, "resolved a graph with dependencies")
+	c05SameSnap(before, c05Take(lc, es), "after Resolve")
+	g1b, err := r.Resolve(ctx, root)
+	if err != nil {
+		g1b = nil
+	}
+	c05SameGraph(c05Clone(g1), c05Clone(g1b), "asking again")
+	if len(es) > 1 {
+		alt := es[1+vParam("alt")%(len(es)-1)].v.VersionKey
+		_, _ = r.Resolve(ctx, alt)
+		vCover(true, "other root resolved in between")
+		g1c, err := r.Resolve(ctx, root)
+		if err != nil {
+			g1c = nil
+		}
+		c05SameGraph(c05Clone(g1), c05Clone(g1c), "after resolving another root on the same resolver")
+		c05SameSnap(before, c05Take(lc, es), "after resolving another root")
+	}
+	lc2 := c05Client(es, true)
+	g2, err := mk(lc2).Resolve(ctx, root)
+	if err != nil {
+		g2 = nil
+	}
+	c05SameGraph(c05Clone(g1), c05Clone(g2), "with the versions inserted in the opposite order")
+}
+
+
+func VerifC05PyPI() {
+	u := c08rBuild()
+	c05Purity(u.es, u.root, NewResolver)
 }
